@@ -81,6 +81,10 @@ type Plugin struct {
 	logger *zap.Logger
 	buf    []byte
 
+	// key fields whose values are the label values of the metric (see keyMetricLabels)
+	labelIdx  []int
+	labelVals []string
+
 	cardinalityUniqueValuesLimit *metric.Gauge
 	cardinalityUniqueValuesGauge *metric.GaugeVec
 }
@@ -191,6 +195,7 @@ func (p *Plugin) Start(config pipeline.AnyConfig, params *pipeline.ActionPluginP
 
 	p.keys = parseFields(p.config.KeyFields)
 	p.fields = parseFields(p.config.Fields)
+	p.labelIdx = keyMetricLabelIndexes(p.keys)
 
 	p.registerMetrics(params.MetricCtl, p.config.MetricPrefix)
 }
@@ -252,6 +257,22 @@ func keyMetricLabels(fields *parsedFields) []string {
 	return result
 }
 
+// keyMetricLabelIndexes returns, for every label of keyMetricLabels, the index of the key field
+// that provides its value: key fields with the same name share one label.
+func keyMetricLabelIndexes(fields *parsedFields) []int {
+	result := make([]int, 0, len(fields.fields))
+	seen := make(map[string]bool, len(fields.fields))
+
+	for i := range fields.fields {
+		name := fields.fields[i].name
+		if !seen[name] {
+			seen[name] = true
+			result = append(result, i)
+		}
+	}
+	return result
+}
+
 func (p *Plugin) Stop() {
 
 }
@@ -290,7 +311,11 @@ func (p *Plugin) Do(event *pipeline.Event) pipeline.ActionResult {
 	if !isOldValue {
 		// is new value
 		keysCount++
-		p.cardinalityUniqueValuesGauge.WithLabelValues(p.keys.valsBuf...).Set(float64(keysCount))
+		p.labelVals = p.labelVals[:0]
+		for _, i := range p.labelIdx {
+			p.labelVals = append(p.labelVals, p.keys.valsBuf[i])
+		}
+		p.cardinalityUniqueValuesGauge.WithLabelValues(p.labelVals...).Set(float64(keysCount))
 	}
 
 	return pipeline.ActionPass
